@@ -151,6 +151,61 @@ fn c05_random_k_verifies() -> bool {
     ECDSA::verify_digest(b"msg", &pk, &sig, SigningHash::Sha256).unwrap_or(false)
 }
 
+// ---- C15 ----
+fn p2pk_tx(locking: &Script) -> (Transaction, TxIn) {
+    let mut tx = Transaction::new(2, 0);
+    let mut txin = TxIn::default();
+    txin.set_satoshis(0);
+    txin.set_locking_script(locking);
+    tx.add_input(&txin);
+    (tx, txin)
+}
+fn push(b: &[u8]) -> Vec<u8> { let mut v = vec![b.len() as u8]; v.extend_from_slice(b); v }
+// a signature over the BYTE-REVERSED sha256d digest of the right preimage must not satisfy CHECKSIG
+fn c15_reversed_digest_rejected() -> bool {
+    let key = PrivateKey::from_wif("L2WAdy8C19GHNtZDSkbsVBJrBaF9XHpPLTgmnc2N5aGyguhJf7zh").unwrap();
+    let pk = key.to_public_key().unwrap().to_bytes().unwrap();
+    let mut lock = push(&pk); lock.push(0xac);
+    let locking = Script::from_bytes(&lock).unwrap();
+    let (mut tx, mut txin) = p2pk_tx(&locking);
+    let preimage = tx.sighash_preimage(SigHash::InputsOutputs, 0, &locking, 0).unwrap();
+    let mut digest = Hash::sha_256d(&preimage).to_bytes();
+    digest.reverse();
+    let sig = ECDSA::sign_digest_with_deterministic_k(&key, &digest).unwrap();
+    let mut sigb = sig.to_der_bytes(); sigb.push(0x41);
+    txin.set_unlocking_script(&Script::from_bytes(&push(&sigb)).unwrap());
+    tx.set_input(0, &txin);
+    let mut it = Interpreter::from_transaction(&tx, 0).unwrap();
+    match no_panic_val(move || { let r = it.run(); (r.is_ok(), it.state().stack.last().cloned()) }) {
+        Some((ok, top)) => { println!("run ok={} top={:?}", ok, top); !(ok && top == Some(vec![1u8])) }
+        None => false,
+    }
+}
+// a code separator position beyond the locking script (conditional spliced in front of it) must be an error, not a panic
+fn c15_codeseparator_offset_beyond_script() -> bool {
+    // locking: OP_1 OP_IF OP_1 OP_1 OP_1 OP_DROP OP_DROP OP_DROP OP_CODESEPARATOR OP_ENDIF <sig> <key> OP_CHECKSIG  -- offset counted in spliced elements
+    let mut lock = vec![0x51, 0x63, 0x51, 0x51, 0x51, 0x75, 0x75, 0x75, 0xab, 0x68];
+    lock.extend(push(&[0x30, 0x06, 0x02, 0x01, 0x01, 0x02, 0x01, 0x01, 0x41])); lock.extend(push(&[2u8; 33])); lock.push(0xac);
+    let locking = Script::from_bytes(&lock).unwrap();
+    let (tx, _) = p2pk_tx(&locking);
+    let mut it = Interpreter::from_transaction(&tx, 0).unwrap();
+    no_panic_val(move || it.run().is_err()).is_some()
+}
+// key / signature counts larger than the stack must be an error, not a panic
+fn c15_multisig_count_beyond_stack() -> bool {
+    let locking = Script::from_bytes(&[0x00, 0x55, 0xae]).unwrap();   // OP_0 OP_5 OP_CHECKMULTISIG
+    let (tx, _) = p2pk_tx(&locking);
+    let mut it = Interpreter::from_transaction(&tx, 0).unwrap();
+    let a = matches!(no_panic_val(move || it.run().is_err()), Some(true));
+    let locking = Script::from_bytes(&[0x00, 0x00, 0x55, push(&[2u8; 33])[0], ]).unwrap_or_default();
+    let _ = locking;
+    let mut l2 = vec![0x00, 0x53]; l2.extend(push(&[2u8; 33])); l2.extend(push(&[2u8; 33])); l2.extend(push(&[2u8; 33])); l2.extend([0x53, 0xae]); // OP_0 OP_3(sig count 3, only 1 element below) k k k OP_3 CHECKMULTISIG
+    let locking2 = Script::from_bytes(&l2).unwrap();
+    let (tx2, _) = p2pk_tx(&locking2);
+    let mut it2 = Interpreter::from_transaction(&tx2, 0).unwrap();
+    let b = matches!(no_panic_val(move || it2.run().is_err()), Some(true));
+    a && b
+}
 fn run_script(hexs: &str) -> Result<Vec<String>, String> {
     let script = Script::from_hex(hexs).map_err(|e| e.to_string())?;
     let mut it = Interpreter::from_script(&script);
@@ -224,6 +279,9 @@ fn main() {
         "c14_notif" => c14_notif(),
         "c16_nip_empty" => c16_nip_empty(),
         "c16_div_zero" => c16_div_zero(),
+        "c15_reversed_digest_rejected" => c15_reversed_digest_rejected(),
+        "c15_codeseparator_offset_beyond_script" => c15_codeseparator_offset_beyond_script(),
+        "c15_multisig_count_beyond_stack" => c15_multisig_count_beyond_stack(),
         _ => { eprintln!("unknown probe {}", name); std::process::exit(2) }
     };
     println!("{}: {}", name, if ok { "HOLDS" } else { "FAILS" });
